@@ -3,6 +3,8 @@ from __future__ import annotations
 
 import asyncio
 import itertools
+import json
+import os
 import random
 from typing import Any
 
@@ -88,6 +90,69 @@ def rand_nested(rng: random.Random, levels: int, sizes: list[int]) -> Any:
         return rand_leaf(rng, rng.randint(0, 50))
     n = rng.choice(sizes)
     return [rand_nested(rng, levels - 1, sizes) for _ in range(n)]
+
+
+CWL_SCATTER_1 = """#!/usr/bin/env cwl-runner
+cwlVersion: v1.2
+class: Workflow
+requirements:
+  InlineJavascriptRequirement: {}
+  ScatterFeatureRequirement: {}
+inputs:
+  xs: int[]
+outputs:
+  ys:
+    type: Any
+    outputSource: work/y
+steps:
+  work:
+    run:
+      class: ExpressionTool
+      inputs: {x: int}
+      outputs: {y: int}
+      expression: "${return {'y': inputs.x * 2 + 1};}"
+    in: {x: xs}
+    scatter: x
+    out: [y]
+"""
+
+CWL_SCATTER_2 = """#!/usr/bin/env cwl-runner
+cwlVersion: v1.2
+class: Workflow
+requirements:
+  InlineJavascriptRequirement: {}
+  ScatterFeatureRequirement: {}
+  SubworkflowFeatureRequirement: {}
+inputs:
+  xss:
+    type: {type: array, items: {type: array, items: int}}
+outputs:
+  yss:
+    type: Any
+    outputSource: outer/ys
+steps:
+  outer:
+    run:
+      class: Workflow
+      inputs: {xs: "int[]"}
+      outputs:
+        ys:
+          type: Any
+          outputSource: work/y
+      steps:
+        work:
+          run:
+            class: ExpressionTool
+            inputs: {x: int}
+            outputs: {y: int}
+            expression: "${return {'y': inputs.x * 2 + 1};}"
+          in: {x: xs}
+          scatter: x
+          out: [y]
+    in: {xs: xss}
+    scatter: xs
+    out: [ys]
+"""
 
 
 class _Map(Transformer):
@@ -312,6 +377,13 @@ class C01(Property):
             yield {"op": "pipeline", "levels": levels, "inputs": [{"tag": t, "value": rand_nested(rng, levels, sizes)}
                                                                 for t in rng.sample(["0", "1", "2", "10"], rng.randint(1, 3))],
                    "f": rng.choice(["id", "wrap", "str"]), "oseed": rng.randrange(1 << 30)}
+        # end to end through the CWL front end (real translator + executor, in-memory db): scatter over an array, scatter of scatter
+        cwl = [(1, [5, 3, 9, 1, 0, 7, 2, 8, 6, 4, 11, 10]), (1, [4]), (2, [[1, 2, 3], [4], [5, 6, 7, 8, 9, 10, 11, 12, 13, 14, 15, 16]])]
+        if wide:
+            cwl += [(1, [rng.randint(0, 99) for _ in range(rng.choice([2, 10, 11, 13, 25]))]) for _ in range(4)]
+            cwl += [(2, [[rng.randint(0, 99) for _ in range(rng.choice([1, 2, 11]))] for _ in range(rng.choice([1, 3, 11]))]) for _ in range(4)]
+        for levels, value in cwl:
+            yield {"op": "cwl", "levels": levels, "value": value}
         # incomplete streams: the forced-gathering branch (the property's premise fails; model vs code only)
         for _ in range(60 if wide else 20):
             n = rng.choice([0, 1, 2, 3, 11])
@@ -389,6 +461,8 @@ class C01(Property):
                      f"nested-{levels}" + ("-single-gather" if case["single_gather"] else ""))
         elif op == "pipeline":
             await self._pipeline(ctx, rig, case)
+        elif op == "cwl":
+            await self._cwl(ctx, rig, case)
         elif op == "partial":
             n = case["n"]
             elems = [Token(value=i, tag=f"0.{i}") for i in range(n)]
@@ -466,6 +540,69 @@ class C01(Property):
                  ("pipeline", levels, repr(case["inputs"])[:300], case["oseed"]), f"pipeline-{levels}")
 
     # --------------------------------------------------------------------------------------------
+    async def _cwl(self, ctx: Ctx, rig: Rig, case: dict) -> None:
+        """a generated CWL scatter workflow (ExpressionTool body) through the real CWLTranslator and executor, in-process on the check's
+        in-memory database; the workflow output against the property, every GatherStep of the translated workflow against the model"""
+        import logging
+        import cwl_utils.parser
+        import cwl_utils.parser.utils
+        from streamflow.config.config import WorkflowConfig
+        from streamflow.cwl.translator import CWLTranslator
+        from streamflow.log_handler import logger as sf_logger
+
+        sf_logger.setLevel(logging.ERROR)
+        rig.n += 1
+        wdir = os.path.join(ctx.scratch, f"cwl-{rig.n}")
+        os.makedirs(wdir, exist_ok=True)
+        doc, job = os.path.join(wdir, "scatter.cwl"), os.path.join(wdir, "job.yml")
+        with open(doc, "w") as f:
+            f.write(CWL_SCATTER_1 if case["levels"] == 1 else CWL_SCATTER_2)
+        with open(job, "w") as f:
+            json.dump({"xs" if case["levels"] == 1 else "xss": case["value"]}, f)
+        cfg = {"version": "v1.0", "workflows": {"w": {"type": "cwl", "config": {"file": doc, "settings": job}}}, "path": wdir}
+        cwl_definition = cwl_utils.parser.load_document_by_uri(doc)
+        cwl_inputs = cwl_utils.parser.utils.load_inputfile_by_uri(version=cwl_definition.cwlVersion, path=job,
+                                                                   loadingOptions=cwl_definition.loadingOptions)
+        wf = CWLTranslator(context=rig.context, name=f"c01cwl-{rig.n}", output_directory=wdir, cwl_definition=cwl_definition,
+                           cwl_inputs=cwl_inputs, cwl_inputs_path=job, workflow_config=WorkflowConfig("w", cfg)).translate()
+        await wf.save(rig.context.database)
+        run = asyncio.create_task(StreamFlowExecutor(wf).run())
+        _, pending = await asyncio.wait([run], timeout=120)
+        if pending:
+            live = sorted(st.name for st in wf.steps.values() if not st.terminated)
+            run.cancel()
+            try:
+                await run
+            except BaseException:  # noqa: BLE001
+                pass
+            raise sd.StepHang(f"CWL scatter workflow did not terminate within 120 s; steps still running: {live[:8]}")
+        outputs = run.result()
+
+        def f2(v):
+            return [f2(x) for x in v] if isinstance(v, list) else v * 2 + 1
+
+        got = outputs.get("ys" if case["levels"] == 1 else "yss")
+        if got != f2(case["value"]):
+            flat = sorted(sd_flat(got)) == sorted(sd_flat(f2(case["value"])))
+            ctx.fail("cwl:wrong-order" if flat else "cwl:wrong-content", f"workflow output {got!r}, expected {f2(case['value'])!r}", case)
+        for st in wf.steps.values():
+            if isinstance(st, GatherStep):
+                gin, gsz = st.get_input_port(), st.get_size_port()
+                tin = [t for t in gin.token_list if isinstance(t, TerminationToken)]
+                tsz = [t for t in gsz.token_list if isinstance(t, TerminationToken)]
+                if not tin or not tsz:
+                    continue
+                events = [("e", t) for t in gin.token_list if not isinstance(t, TerminationToken)] + \
+                         [("s", t) for t in gsz.token_list if not isinstance(t, TerminationToken)] + \
+                         [("te", tin[0].value.name), ("ts", tsz[0].value.name)]
+                ids: dict = {}
+                line = lean_gather_line(st.depth, events, ids)
+                exp = (render_real_out(list(st.get_output_port().token_list), ids), "sets", dict(case, stage=st.name, line=line[:300]))
+                self._lines.append(line)
+                self._expect.append(exp)
+        ctx.case({"case": case, "outputs": outputs}, ("cwl", case["levels"], repr(case["value"])[:300]), f"cwl-{case['levels']}")
+
+    # --------------------------------------------------------------------------------------------
     def _check_scatter(self, ctx: Ctx, case: dict, inputs: list[Token], elems: list[Token], sizes: list[Token]) -> None:
         """scatter: element i of the list tagged p becomes p.i (in order), one size token (p, n) per input"""
         exp_e, exp_s = [], []
@@ -536,6 +673,10 @@ class C01(Property):
             print(f"{c.get('stage')}: {ln[:400]}\n   real : {real[:600]}\n   model: {g[:600]}")
             if (g != real) if how == "exact" else (canon_sets(g) != canon_sets(real)):
                 ctx.disagree("model vs code", f"code {real!r}, model {g!r}", c)
+
+
+def sd_flat(v) -> list:
+    return [y for x in v for y in sd_flat(x)] if isinstance(v, list) else [v]
 
 
 def _brief(case: dict) -> dict:
